@@ -54,7 +54,7 @@ class Gen:
         return self.rng.randrange(self.nev)
 
     def script(self, nops=20, effects=0.0, enqueue=0.0, fail=0.0, reads=False, stop=0.3, restart=0.0,
-               effect_kinds='GANX', effect_targets='sr', weights=None, cg_seed=True, start_effects=True):
+               effect_kinds='GANX', effect_targets='sr', weights=None, cg_seed=True, start_effects=True, effect_api='ppq', drain1=True):
         r = self.rng
         self.next_id = 1
         toks = []
@@ -68,7 +68,7 @@ class Gen:
             cands = [s for s in self.sites if s[0] == 'N']
             for _k in range(r.choice([1, 1, 2])):
                 kind, site = r.choice(cands)
-                toks.append('E%s:%s:1:%s:%s:%d:%d' % (kind, site, r.choice('ppq'), r.choice(effect_targets),
+                toks.append('E%s:%s:1:%s:%s:%d:%d' % (kind, site, r.choice(effect_api), r.choice(effect_targets),
                                                      self.ev(weights), self.fresh_id()))
         toks.append('S')
         running = True
@@ -87,7 +87,7 @@ class Gen:
                         break
                     kind, site = r.choice(cands)
                     nth = r.choice([1, 1, 1, 2, 3])
-                    api = r.choice('ppq')
+                    api = r.choice(effect_api)
                     tgt = r.choice(effect_targets)
                     if kind == 'X' and tgt == 's':
                         tgt = 'r'
@@ -96,7 +96,7 @@ class Gen:
             if enqueue and y < enqueue:
                 toks.append('Q%d:%d' % (self.ev(weights), self.fresh_id()))
                 if r.random() < 0.5:
-                    toks.append(r.choice(['D', 'd', 'D']))
+                    toks.append(r.choice(['D', 'd', 'D']) if drain1 else 'D')
                 continue
             if fail and r.random() < fail:
                 toks.append('F%d' % r.choice([0, 0, 1, 1, 2, 3, 4, 5, 6, 8, 10]))
